@@ -227,7 +227,7 @@ pub fn op_strat(w: FWeights) -> impl Strategy<Value = FOp> {
         (w.open, open_strat().boxed()),
         (
             w.expand_pos,
-            (prop_oneof![8 => Just(0u8), 1 => Just(1u8), 2 => Just(2u8)], user(), any::<u16>(), lp_amount())
+            (prop_oneof![8 => Just(0u8), 1 => Just(1u8), 2 => Just(2u8), 1 => Just(5u8), 1 => Just(8u8), 2 => Just(11u8)], user(), any::<u16>(), lp_amount())
                 .prop_map(|(by, user, pos, amount)| FOp::ExpandPos { by, user, pos, amount })
                 .boxed(),
         ),
